@@ -13,17 +13,18 @@ fixed_lines = 1          # every script starts with `t reset`
 lean_modules = ["Driver.Types"]
 rule = ("one script = one process = one registry history: 't reset' then registrations ('t basic size', 't generic size [if]', "
         "'t iface name', 't meta name') interleaved with lookups by id ('t traits|itraits|mtraits id', 't size id' for built-ins, "
-        "'t sweep' = every id 0..0x1100 plus all named entries) and by name ('t named name len', 't alias text'). Stream 1 "
+        "'t sweep' = every id 0..0x1100 plus all named entries) and by name ('t named name len', 't alias text', 't alias0 text' = without the end output). Stream 1 "
         "(exhaustive): every built-in id, every id sweep on the fresh registry, every integer size 0..17, every message format byte 0..255 and type id -2..299 through mpt_msgvalfmt_*. Stream 2: fill each of "
         "the four ranges to capacity -1/0/+2 (64/48/1791/1792), chunk boundaries at multiples of 30, name length 0..5, duplicate / "
         "cross-kind / built-in / short-name collisions, length-limited lookups around the stored length. Stream 3: random "
         "histories. non-trivial = a history in which an entry registered earlier is found again (by id, by name or in a sweep) "
         "after at least one later registration, counted per distinct script")
 assumptions = [
-    "LP64 x86-64 ABI sizes of the C types behind the built-in ids (Spec/Registry.lean abiSize; printed next to the compiler's sizeof by 't size')",
+    "S states the LP64 x86-64 sizes of the C types behind the built-in ids (Spec/Registry.lean abiSize, hand-written); M takes every sizeof "
+    "from clang-14 (translate/cextract.py clang_sizeof: probe unit compiled to LLVM IR -> Generated sizeofC); 't size' prints the harness compiler's sizeof",
     "malloc/calloc never fail in the harness runs; atexit clean-up is not observed",
     "the chunk lists of metatype and generic entries are modelled flattened (chunks are filled strictly in order)",
-    "the traits of the four static managed types (identifier, meta reference, array, command) are defined outside type_traits.c: size of the C type with init and fini",
+    "the traits of the four static managed types (identifier, meta reference, array, command) are read by the translator from the static record of the function mpt_type_traits returns for the id (misc/identifier.c, meta/meta_reference_traits.c, array/array_traits.c, event/command_traits.c): { init, fini, sizeof(T) }",
 ]
 trusted = [
     "translate/cextract.py (clang-14 JSON AST of type_traits.c/types.h/type_int.c -> Generated/TypeIds.lean, TypeTables.lean, regenerated every run)",
@@ -128,6 +129,7 @@ def scripts(tier, seed, scale=1):
     al = ["logger", "log", "logger:sym", "log:sym", "logger : sym", "logger \t:  sym x", ":sym", " :sym", "  : ", "nosuch:sym", "metatype:", "meta", "meta:x",
           "my.type:lib.so", "my.type", "my.typ:x", "my.type:", "a:b:c", "iter"]
     out.append(S("alias", ["t meta %s" % hx("my.type")] + ["t alias %s" % hx(a) for a in al]))
+    out.append(S("alias:noend", ["t meta %s" % hx("my.type")] + ["t alias0 %s" % hx(a) for a in al]))
     out.append(S("alias:fresh", ["t alias %s" % hx(a) for a in al]))
     # ---- stream 3: random histories
     r = gen.rng(id, tier, seed, "random")
